@@ -12,6 +12,7 @@ from vsc.model.constraint_block_model import ConstraintBlockModel
 from vsc.model.constraint_expr_model import ConstraintExprModel
 from vsc.model.constraint_foreach_model import ConstraintForeachModel
 from vsc.model.constraint_if_else_model import ConstraintIfElseModel
+from vsc.model.constraint_implies_model import ConstraintImpliesModel
 from vsc.model.constraint_inline_scope_model import ConstraintInlineScopeModel
 from vsc.model.constraint_scope_model import ConstraintScopeModel
 from vsc.model.expr_array_subscript_model import ExprArraySubscriptModel
@@ -75,10 +76,26 @@ class ArrayConstraintBuilder(ConstraintOverrideVisitor):
             
             fm = Expr2FieldVisitor().field(f.lhs, True)
 
+            rand_sz = (isinstance(fm, FieldArrayModel) and 
+                       fm.is_rand_sz and fm.size.is_used_rand)
+
             for i in range(len(fm.field_l)):
                 f.index.set_val(i)
-                for c in f.constraint_l:
-                    c.accept(self)
+                if rand_sz:
+                    # The size is being solved for. The body only applies
+                    # to the elements below it
+                    guard = ConstraintImpliesModel(
+                        ExprBinModel(
+                            ExprLiteralModel(i, False, 32),
+                            BinExprType.Lt,
+                            ExprFieldRefModel(fm.size)))
+                    with ConstraintCollector(self, guard):
+                        for c in f.constraint_l:
+                            c.accept(self)
+                    self.constraints.append(guard)
+                else:
+                    for c in f.constraint_l:
+                        c.accept(self)
 
         if len(self.foreach_scope_s) > 1:
             for c in scope.constraint_l:
